@@ -275,6 +275,86 @@ def unit_feature(item):
     return unit, exact
 
 
+# ---------------------------------------------------------------------------
+# rate-pair family: from_hz_to_hz / set_hz_to_hz with unusual and non-integer rates (the quotient
+# source_hz / target_hz must be computed exactly as written - a reciprocal route differs by 1 ulp for
+# some pairs), scale_sample_hz with the same quotients.  A few outputs suffice: the accumulator after
+# the first output is the ratio in effect, compared bit-for-bit through the hook.
+
+HZ_RATES = [37800.0, 44056.0, 47250.0, 50400.0, 22254.54, 31250.0, 48000.0 * 1.001, 44100.0 / 1.001, 11025.0, 96000.0,
+            44100.0, 48000.0, 8000.0, 32000.0, 88200.0]
+
+
+def rand_rate(r):
+    k = r.below(4)
+    if k == 0:
+        return r.choice(HZ_RATES)
+    if k == 1:
+        return float(r.range(1000, 200000))
+    if k == 2:
+        return r.range(1000, 200000) + r.below(1 << 20) / float(1 << 20) * 0.999 + r.below(100) / 100.0
+    return r.choice(HZ_RATES) * r.choice([1.001, 1.0 / 1.001, 0.5, 2.0, 1.0 + 2.0 ** -30, 3.0, 1.0 / 3.0])
+
+
+def hz_case(r, a, b, mode, k):
+    itp = k % 2
+    fmt = ["f64", "i16", "f32", "u8", "i16x2"][(k // 2) % 5]
+    nchan = FMT[fmt][1]
+    L = r.range(0, 8)
+    frames = [[rand_sample(r, fmt) for _ in range(nchan)] for _ in range(L)]
+    if mode == "ctor":
+        ctor = ["hz", d2b(a), d2b(b)]
+        ops = [["n"]] * r.range(3, 6)
+    elif mode == "set":
+        ctor = ["scale", d2b(r.choice([0.5, 1.0, 0.75, 2.0]))]
+        ops = [["n"]] * r.range(1, 2) + [["h", d2b(a), d2b(b)]] + [["n"]] * r.range(2, 4)
+    elif mode == "sample":                      # scale_sample_hz(b / a): playback ratio 1 / (b / a)
+        ctor = ["sample", d2b(b / a)]
+        ops = [["n"]] * r.range(3, 5)
+    else:                                       # set_sample_hz_scale(b / a) mid-run
+        ctor = ["hz", d2b(b), d2b(a)]
+        ops = [["n"], ["s", d2b(b / a)], ["n"], ["n"], ["n"]]
+    return build(dict(fmt=fmt, itp=itp, frames=frames, ctor=ctor, ops=ops, kind="hz_" + mode, ratio=a / b, varying=(mode in ("set", "setsample")),
+                      hz_pair=[a, b]))
+
+
+def gen_hz_cases(rng, tier):
+    items = []
+    k = 0
+    fixed = HZ_RATES[:10]
+    for a in fixed:                              # every ordered pair of the unusual rates, up and down
+        for b in fixed:
+            if a != b:
+                items.append(hz_case(rng.fork(f"hzfix{k}"), a, b, "ctor", k))
+                k += 1
+    n_rand = 150 if tier == "quick" else 4000
+    for j in range(n_rand):
+        r = rng.fork(f"hzrand{j}")
+        a, b = rand_rate(r), rand_rate(r)
+        mode = ["ctor", "ctor", "set", "sample", "ctor", "setsample"][j % 6]
+        items.append(hz_case(r, a, b, mode, k))
+        k += 1
+    return items
+
+
+def recip_feature(item):
+    """from_hz_to_hz / set_hz_to_hz with a quotient whose reciprocal-of-reciprocal differs from it:
+    1.0 / (target / source) != source / target in binary64"""
+    pairs = []
+    c = item["ctor"]
+    if c[0] == "hz":
+        pairs.append((b2d(c[1]), b2d(c[2])))
+    for o in item["ops"]:
+        if o[0] == "h":
+            pairs.append((b2d(o[1]), b2d(o[2])))
+    for a, b in pairs:
+        if a > 0.0 and b > 0.0 and a == a and b == b and a != float("inf") and b != float("inf"):
+            q = b / a
+            if q > 0.0 and q != float("inf") and 1.0 / q != a / b:
+                return True
+    return False
+
+
 def gen_malformed(r):
     """constructor arguments outside the domain (scale > 0 asserted) and harmless odd set_* values"""
     out = []
@@ -302,6 +382,7 @@ def gen_cases(rng, tier):
         items.append(gen_case(rng.fork(f"case{k}"), tier, k))
     for k in range(160 if tier == "quick" else 2000):
         items.append(gen_unit_case(rng.fork(f"unit{k}"), tier, k))
+    items += gen_hz_cases(rng.fork("hzpairs"), tier)
     items += gen_malformed(rng.fork("malformed"))
     return items
 
@@ -332,7 +413,7 @@ def load_corpus():
     return items
 
 
-CASE_KEYS = ("fmt", "itp", "frames", "ctor", "ops", "kind", "ratio", "varying")
+CASE_KEYS = ("fmt", "itp", "frames", "ctor", "ops", "kind", "ratio", "varying")   # hz_pair is informative only
 
 
 def main(rep, tier, seed):
@@ -399,6 +480,11 @@ def main(rep, tier, seed):
             uf["accumulator_exactly_integer_cases"] += 1
             uf["accumulator_exactly_integer_outputs"] += e
     hist["unit_ratio_at_fractional_position"] = uf
+    # feature: from_hz_to_hz / set_hz_to_hz whose quotient differs from the reciprocal of its reciprocal
+    rf = [it for it in items if recip_feature(it)]
+    hist["hz_quotient_not_reciprocal_of_reciprocal"] = {
+        "cases": len(rf), "ctor_cases": sum(1 for it in rf if it["ctor"][0] == "hz" and recip_feature(dict(ctor=it["ctor"], ops=[]))),
+        "rate_pair_cases_total": sum(1 for it in items if it["kind"].startswith("hz_"))}
     for idx in bad[:3]:
         it = items[idx]
 
@@ -431,7 +517,7 @@ def finish(rep, info, n, nontriv, dist, samples, bad=(), fb=None):
             "modelled, not verified: Frame::zip_map on arrays as per-channel list map, Signal/Iterator trait dispatch, the Counted/CountIter instrumentation in the harness"],
         "theorems": th, "axioms_reported": info.get("axioms", []),
         "evaluations": n, "distinct_nontrivial": nontriv,
-        "rule": "one evaluation = one converter run (priming, construction, up to 80 outputs, every observation compared); non-trivial = the ratio is not 1 and the run reaches exhaustion (some output observed with is_exhausted = 1), or the ratio varies per output (mul_hz control signal / set_* calls); extra feature counted in input_distribution.unit_ratio_at_fractional_position: ratio exactly 1.0 (mul_hz control value, set_playback_hz_scale(1.0), set_hz_to_hz(a, a), set_sample_hz_scale(1.0)) at an output where the accumulator's fraction is not 0, and accumulators landing exactly on / just below integers",
+        "rule": "one evaluation = one converter run (priming, construction, up to 80 outputs, every observation compared); non-trivial = the ratio is not 1 and the run reaches exhaustion (some output observed with is_exhausted = 1), or the ratio varies per output (mul_hz control signal / set_* calls); extra feature counted in input_distribution.unit_ratio_at_fractional_position: ratio exactly 1.0 (mul_hz control value, set_playback_hz_scale(1.0), set_hz_to_hz(a, a), set_sample_hz_scale(1.0)) at an output where the accumulator's fraction is not 0, and accumulators landing exactly on / just below integers; input_distribution.hz_quotient_not_reciprocal_of_reciprocal: from_hz_to_hz / set_hz_to_hz cases over unusual and non-integer rate pairs whose quotient a/b differs in binary64 from 1/(b/a) (the accumulator after the first output is the ratio in effect, compared bit-for-bit)",
         "samples": samples, "input_distribution": dist, "disagreements": len(bad),
         "known_finding_class": "K3: accumulator >= 2^53 (ratio >= 2^53 or non-finite): excluded from generation, never executed on the real code; refuted on the binary64 model (c08_k3_refuted)",
         "explanation": "theorems: real-arithmetic position/consumption/exhaustion/count statements for all positive ratio sequences, sources and both interpolators + binary64 exactness of the pull loop below 2^53; tie: the same Gallina model over Flocq binary64 evaluated by coqc on the cases the real Converter/MulHz run, all observations (frames, pull counters, exhaustion flags, accumulator bits) compared exactly",
